@@ -1,6 +1,6 @@
 (** Executable entry points of the C06 model for the correspondence driver. *)
 From Coq Require Import List NArith ZArith String Bool.
-From Tongo Require Import Lib.Bits Lib.Res Lib.Sx Model.BitString.
+From Tongo Require Import Lib.Bits Lib.Res Lib.Sx Model.BitString Model.BitStringD.
 Import ListNotations.
 Local Open Scope string_scope.
 Local Open Scope list_scope.
@@ -149,4 +149,71 @@ Definition run_minbits (a : sx) : sx :=
   match a with
   | SN v => SN (N.size v)
   | _ => sx_err "minbits"
+  end.
+
+(** *** c06.derived: a register file of bit strings; operations continue on the
+    BitStrings RETURNED by ReadBits / ReadRemainingBits / Copy / RawBitString
+    (byte-faithful buffers, Model/BitStringD.v) *)
+Definition reg_get (rs : list bs) (i : N) : bs := nth (N.to_nat i) rs (new_bs 0).
+Definition reg_set (rs : list bs) (i : N) (s : bs) : list bs := set_nth (N.to_nat i) s rs.
+
+Definition to_fift_bs_sx (s : bs) : sx :=
+  match to_fift_bs s with
+  | Ok (ds, u) => SL [SL (map SN ds); SB u]
+  | Err _ => SA "err"
+  | Panic _ => SA "panic"
+  end.
+
+Definition dstep (rs : list bs) (o : sx) : list bs * sx :=
+  match o with
+  | SL (SA nm :: args) =>
+    let is x := String.eqb nm x in
+    match args with
+    | [SN i] =>
+        let s := reg_get rs i in
+        if is "cell" then (reg_set rs i (new_bs 1023), SA "ok")
+        else if is "fift" then (rs, to_fift_bs_sx s)
+        else if is "bin" then (rs, SBits (abs s))
+        else if is "topup" then (rs, out_of SBytes (top_upped s))
+        else (rs, sx_err "bad dop i")
+    | [SN i; SN j] =>
+        let s := reg_get rs i in
+        if is "new" then (reg_set rs i (new_bs (N.to_nat j)), SA "ok")
+        else if is "grow" then (reg_set rs i (grow (N.to_nat j) s), SA "ok")
+        else if is "rrem" then
+          let '(s', r) := read_remaining_bs s in (reg_set (reg_set rs i s') j r, SA "ok")
+        else if is "copy" then (reg_set rs j (copy_bs s), SA "ok")
+        else if is "raw" then (reg_set rs j s, SA "ok")
+        else if is "append" then
+          let '(s', r) := append_bs (reg_get rs j) s in (reg_set rs i s', out_unit r)
+        else if is "wbs" then
+          let '(s', r) := write_bitstring (reg_get rs j) s in (reg_set rs i s', out_unit r)
+        else (rs, sx_err "bad dop ij")
+    | [SN i; SN j; SN n] =>
+        if is "rbits" then
+          match read_bits_bs (N.to_nat n) (reg_get rs i) with
+          | (s', Ok r) => (reg_set (reg_set rs i s') j r, SA "ok")
+          | (s', Err _) => (reg_set rs i s', SA "err")
+          | (s', Panic _) => (reg_set rs i s', SA "panic")
+          end
+        else (rs, sx_err "bad dop ijn")
+    | [SN i; SL op] =>
+        if is "on" then let '(s', r) := step (reg_get rs i) (SL op) in (reg_set rs i s', r)
+        else (rs, sx_err "bad dop on")
+    | _ => (rs, sx_err "bad dop args")
+    end
+  | _ => (rs, sx_err "bad dop")
+  end.
+
+Fixpoint run_dops (rs : list bs) (ops : list sx) : list sx :=
+  match ops with
+  | [] => []
+  | o :: t => let '(rs', r) := dstep rs o in r :: run_dops rs' t
+  end.
+
+(* (ops...) over 6 registers, all NewBitString(0) initially *)
+Definition run_derived (a : sx) : sx :=
+  match a with
+  | SL ops => SL (run_dops (repeat (new_bs 0) 6) ops)
+  | _ => sx_err "derived"
   end.
